@@ -1,8 +1,7 @@
 (* Property C04 -- safe mutation never breaks well-formedness.  Statements only.
    Proved: all finite sequences of the five component setters (any valid arguments incl. removal), at delimiter level
    and at grammar level; all finite sequences mixing the setters with every path-handle mutator (push, pop, clear,
-   normalize, symbolic_push, symbolic_append) and authority-handle histories.  Resolution is covered by C06 and the
-   correspondence check. *)
+   normalize, symbolic_push, symbolic_append), in-place resolution (all five branches) and authority-handle histories. *)
 From Coq Require Import List NArith Bool Arith.
 Import ListNotations.
 Require Import V.Regex V.Parse V.ParseProofs V.PathSpec V.Splice V.Setters V.Push V.Auth V.AuthProofs V.AuthMut V.AuthMutProofs2 V.RefPath V.RefAuth V.C04Proofs V.C04Proofs2 V.Abnf V.BridgePaths V.C02Bridge V.ValidSetInst V.C04Valid.
@@ -27,12 +26,13 @@ Proof. exact valid_sequences_I. Qed.
 Print Assumptions C04_setters_keep_validity_IRI.
 
 (* the same for sequences that MIX the five setters, path push / pop / clear / normalize / symbolic_push /
-   symbolic_append (through a handle taken on the reference), and whole histories of
+   symbolic_append (through a handle taken on the reference), in-place resolution against any well-formed base that
+   has a scheme, and whole histories of
    set_userinfo / set_host / set_port edits through one authority handle (the invariant additionally says that
    the authority, when present, is [userinfo@]host[:port] with delimiter-well-formed parts): every call returns
    (no panic: all index arithmetic is checked in the model) and the buffer is again compose of such parts.
-   Not covered by this theorem: resolve inside a sequence (its own branches: C06), set_* of the owned path/authority
-   types outside a reference (model + correspondence only). *)
+   Not covered by this theorem: the mutators of the owned path / authority types outside a reference (PathBuf,
+   AuthorityBuf: model + correspondence only; their handles are the same code run on a whole-buffer handle). *)
 Theorem C04_mixed_sequences_partial : forall (ms : list mop) (p : parts), wf_parts p -> auth_shape p -> Forall marg_ok ms ->
   exists p', mrun ms (compose p) = Some (compose p') /\ wf_parts p' /\ auth_shape p'.
 Proof. exact mrun_wf. Qed.
